@@ -264,3 +264,46 @@ Proof.
   destruct (update_some RN (params RN w) us nms clear) as [[ps' us'] [e|]]; cbn; destruct H as [P U];
     (split; [exact P|exists us'; auto]).
 Qed.
+
+(* ------------------------------------------------------------------ the trainer-level route: CellTrainer.update() *)
+(* Updater.forward() with no names = module.update(clear=False) *)
+Lemma apply_all_is_update_noclear (w : worldR) us :
+  upd RN w = Some us -> step RN w (OpApply RN []) = step RN w (OpUpdate RN false).
+Proof.
+  intros Eu. cbn [step]. rewrite Eu. unfold finish.
+  destruct (updater_forward RN (params RN w) us []) as [[ps us'] [e|]]; reflexivity.
+Qed.
+(* "The updaters will each be called once, even if present in multiple cells": with at least one registered cell
+   on this module, trainer.update() is exactly ONE module.update(clear=False), whatever the number of cells that
+   share the module's updater and whatever other cells the trainer holds *)
+Theorem trainer_update_once (w : worldR) us cells :
+  In 0%Z cells -> upd RN w = Some us ->
+  step RN w (OpTrainerUpdate RN cells) = step RN w (OpUpdate RN false).
+Proof.
+  intros Hin Eu. rewrite <- (apply_all_is_update_noclear w us Eu). cbn [step]. rewrite Eu.
+  assert (E : existsb (Z.eqb 0) cells = true) by (apply existsb_exists; exists 0%Z; split; [exact Hin|reflexivity]).
+  rewrite E. reflexivity.
+Qed.
+(* cells without an updater (None) and cells of other modules leave this module alone *)
+Theorem trainer_update_skips (w : worldR) cells :
+  ~ In 0%Z cells \/ upd RN w = None -> step RN w (OpTrainerUpdate RN cells) = (w, Ok (OUnit RN)).
+Proof.
+  intros H. cbn [step]. destruct (existsb (Z.eqb 0) cells) eqn:E; [|reflexivity].
+  destruct H as [H|H]; [|rewrite H; reflexivity].
+  exfalso. apply H. apply existsb_exists in E. destruct E as (z & Hz & Ez). apply Z.eqb_eq in Ez. subst z. exact Hz.
+Qed.
+(* hence the value: every managed parameter moves by exactly one application (update_spec with clear = false) *)
+Corollary trainer_update_spec (w : worldR) us cells :
+  In 0%Z cells -> upd RN w = Some us -> NoDup (map fst us) ->
+  (forall nm, In nm (map fst us) -> ready (params RN w) us nm) ->
+  exists ps' us',
+    step RN w (OpTrainerUpdate RN cells) = (mkWorld RN ps' (Some us'), Ok (OUnit RN)) /\
+    (forall nm, ~ In nm (map fst us) -> lookup nm ps' = lookup nm (params RN w)) /\
+    (forall nm a x, lookup nm us = Some a -> lookup nm (params RN w) = Some x ->
+       exists y, lookup nm ps' = Some y /\ length y = length x /\
+                 forall j, (j < length x)%nat -> nth j y 0 = applied a x j).
+Proof.
+  intros Hin Eu Hnd Hr. rewrite (trainer_update_once w us cells Hin Eu).
+  destruct (update_spec w us false Eu Hnd Hr) as (ps' & us' & E & _ & _ & Hout & Hv).
+  exists ps', us'. auto.
+Qed.
